@@ -83,7 +83,72 @@ print("HOLDS")
 '''
 
 
+SORT_MODULE = r'''
+SORT, SORTBY, COMPARE = cfn("sort"), cfn("sort-by"), cfn("compare")
+POOL = [kw.keyword("b"), kw.keyword("a"), kw.keyword("b", ns="x"), kw.keyword("a", ns="y"), kw.keyword("c", ns="x"), kw.keyword("a", ns="x")]
+def kkey(k):
+    return (0, "", k.name) if k.ns is None else (1, k.ns, k.name)
+def DIAG(**k):
+    return k
+'''
+
+
+def sort_specs(timeout):
+    from ..chx.driver import Spec
+    from ..chx.lisp import harness
+    out = []
+    body = '''    got = seq_list(SORT(vec.vector(xs)))
+    if got != sorted(xs):
+        return False
+    # sort-by with a key that creates ties: stable, ordered by the key
+    got2 = seq_list(SORTBY(lambda x: x // 2, vec.vector(xs)))
+    want2 = sorted(xs, key=lambda x: x // 2)
+    # descending comparator given as a boolean predicate and as a 3-way function
+    got3 = seq_list(SORT(lambda a, b: a > b, vec.vector(xs)))
+    got4 = seq_list(SORT(lambda a, b: COMPARE(b, a), vec.vector(xs)))
+    return got2 == want2 and got3 == sorted(xs, reverse=True) and got4 == sorted(xs, reverse=True)'''
+    out.append(Spec("sort/ints", harness("xs: List[int]", body, pre=["len(xs) <= 3"], module_code=SORT_MODULE, warm=[([3, 1, 2],)]),
+                    timeout=timeout, bound="lists of <= 3 ints (unbounded values)", meta={"kind": "sort"}))
+    body = '''    ks = [POOL[i] for i in [i0, i1, i2][:n]]
+    got = seq_list(SORT(vec.vector(ks)))
+    want = sorted(ks, key=kkey)
+    # the result for distinct elements does not depend on the order of the input
+    got_rev = seq_list(SORT(vec.vector(list(reversed(ks)))))
+    distinct = len(set(ks)) == len(ks)
+    return got == want and (not distinct or got_rev == want)'''
+    out.append(Spec("sort/keywords", harness("i0: int, i1: int, i2: int, n: int", body,
+                                             pre=["0 <= i0 < 6", "0 <= i1 < 6", "0 <= i2 < 6", "0 <= n <= 3"], module_code=SORT_MODULE, warm=[(0, 1, 2, 3)]),
+                    timeout=timeout, bound="<= 3 keywords chosen among 6 (every ns/name ordering combination)", meta={"kind": "sort"}))
+    body = '''    a, b = vec.vector(xs), vec.vector(ys)
+    c = COMPARE(a, b)
+    ref = 0
+    if len(xs) != len(ys):
+        ref = 1 if len(xs) > len(ys) else -1
+    else:
+        for p, q in zip(xs, ys):
+            if p != q:
+                ref = 1 if p > q else -1
+                break
+    return c == ref and COMPARE(b, a) == -ref'''
+    out.append(Spec("compare/vectors-of-ints", harness("xs: List[int], ys: List[int]", body, pre=["len(xs) <= 3", "len(ys) <= 3"],
+                                                        module_code=SORT_MODULE, warm=[([1, 2], [1, 3])]),
+                    timeout=timeout, bound="vectors of <= 3 ints: shorter first, then element-wise", meta={"kind": "compare-vector"}))
+    body = '''    c = COMPARE(x, y)
+    if x is None or y is None:
+        return c == ((x is not None) - (y is not None))
+    return c == (x > y) - (x < y) and COMPARE(y, x) == -c'''
+    out.append(Spec("compare/numbers-and-nil", harness("x: Optional[int], y: Optional[int]", body, module_code=SORT_MODULE, warm=[(1, None)]),
+                    timeout=timeout, bound="ints (unbounded) and nil", meta={"kind": "compare-number"}))
+    body = '''    c = COMPARE(s, t)
+    return c == (s > t) - (s < t) and COMPARE(t, s) == -c'''
+    out.append(Spec("compare/strings", harness("s: str, t: str", body, pre=["len(s) <= 2", "len(t) <= 2"], module_code=SORT_MODULE, warm=[("a", "b")]),
+                    timeout=timeout, bound="strings of <= 2 code points", meta={"kind": "compare-string"}))
+    return out
+
+
 def run(rep, tier, seed):
+    rep.encoded(RT, ["sort", "sort_by", "_fn_to_comparator"], "executed under CrossHair (sorted() is environment)")
+    rep.encoded("src/basilisp/lang/vector.py", ["PersistentVector.__lt__"], "executed under CrossHair")
     rep.encoded(KW, ["Keyword.__lt__", "Keyword.__eq__"], "PySym: AST interpreted over z3 String/Option terms")
     rep.encoded(SYM, ["Symbol.__lt__", "Symbol.__eq__"], "PySym")
     rep.encoded(RT, ["compare", "_compare_nil"], "PySym (singledispatch registry read from the AST)")
@@ -138,5 +203,8 @@ def run(rep, tier, seed):
             else:
                 res.detail = r["message"][:300]
             rep.add(res)
+    from ..chx.flow import run_specs
+    if getattr(rep, "only", None) is None or "sort" in rep.only or "compare/" in rep.only:
+        run_specs(rep, sort_specs(60 if tier == "quick" else 400), lambda s_, c: {"family": "sort", "prop": s_.name}, lambda s_, c: f"{s_.name}: {c}")
     rep.extra["explanation"] = ("Engine B: the real __lt__/__eq__/compare ASTs are interpreted over unbounded z3 strings; "
                                 "each obligation is decided by z3 on every path (unsat = holds for all strings).")
